@@ -20,35 +20,42 @@ func vfRole(name string) {}
 // hold a common mutex, one of them in write mode.
 func VfC11_lockset() {
 	vfTrackHeap()
-	s := &Server{cs: map[string]*clientState{}, masterRIB: rib.New(DefaultNetworkInstanceName)}
-	if err := s.masterRIB.AddNetworkInstance("VRF-A"); err != nil {
-		panic(err)
-	}
-	id := &spb.Uint128{High: 1, Low: 1}
-	for _, c := range []string{"A", "B"} {
-		s.cs[c] = &clientState{params: &clientParams{ExpectElecID: true, Persist: true}, setParams: true, lastElecID: id}
-	}
 	// either session may be the primary (successive primaries can overlap in time)
-	s.curElecID, s.curMaster = id, vfIteStr(vfBool("primary-is-B"), "B", "A")
-	vfAddNH(s.masterRIB, DefaultNetworkInstanceName, 1)
-	vfAddNH(s.masterRIB, "VRF-A", 2)
-	// an unreferenced group and a referenced one, so that deletes / replaces reach the reference counters
-	for _, o := range []*spb.AFTOperation{
-		vfNHGOp(801, DefaultNetworkInstanceName, 1, 1, nil),
-		vfNHGOp(802, DefaultNetworkInstanceName, 2, 1, nil),
-		vfV4Op(803, DefaultNetworkInstanceName, "1.1.1.1/32", 2, nil),
-	} {
-		if oks, _, err := s.masterRIB.AddEntry(o.NetworkInstance, o); err != nil || len(oks) != 1 {
-			panic("cannot seed RIB")
-		}
-	}
-
+	s := vfC11Setup(vfIteStr(vfBool("primary-is-B"), "B", "A"))
 	// ONE role per path: the union over paths covers every handler, the product is never built
 	role := vfInt("role", 0, 6)
 	c := "A"
 	if vfBool("session-B") {
 		c = "B"
 	}
+	in := &vfC11In{ack: vfInt("ack", 0, 1), flushElec: vfInt("flush.elec", 0, 2)}
+	switch role {
+	case 2:
+		in.eHi, in.eLo = vfU64("e.hi"), vfU64("e.lo")
+	case 3:
+		in.op = vfSymReqOp(1, &spb.Uint128{High: vfU64("op.e.hi"), Low: vfU64("op.e.lo")})
+	case 6:
+		if in.flushElec == 2 {
+			in.fHi, in.fLo = vfU64("f.hi"), vfU64("f.lo")
+		}
+	}
+	vfC11Role(s, role, c, in)
+	vfRole("")
+	vfReach("end")
+}
+
+type vfC11In struct {
+	ack        int
+	eHi, eLo   uint64
+	op         *spb.AFTOperation
+	flushElec  int
+	fHi, fLo   uint64
+}
+
+var vfC11RoleNames = []string{"connect", "params", "election", "operation", "disconnect", "get:all", "flush:any"}
+
+// vfC11Role executes one RPC handler role (shared by the symbolic harness and the native race-pair test).
+func vfC11Role(s *Server, role int, c string, in *vfC11In) {
 	switch role {
 	case 0:
 		vfRole("session-" + c + ":connect")
@@ -57,17 +64,17 @@ func VfC11_lockset() {
 		s.newClient("new-" + c)
 		vfRole("session-" + c + ":params")
 		p := &spb.SessionParameters{Redundancy: spb.SessionParameters_SINGLE_PRIMARY, Persistence: spb.SessionParameters_PRESERVE,
-			AckType: spb.SessionParameters_AFTResultStatusType(vfInt("ack", 0, 1))}
+			AckType: spb.SessionParameters_AFTResultStatusType(in.ack)}
 		if _, err := s.checkParams("new-"+c, p, false); err == nil {
 			s.updateParams("new-"+c, p)
 		}
 	case 2:
 		vfRole("session-" + c + ":election")
-		s.runElection(c, &spb.Uint128{High: vfU64("e.hi"), Low: vfU64("e.lo")})
+		s.runElection(c, &spb.Uint128{High: in.eHi, Low: in.eLo})
 	case 3:
 		vfRole("session-" + c + ":operation")
 		resCh, errCh := make(chan *spb.ModifyResponse, 32), make(chan error, 32)
-		s.doModify(c, []*spb.AFTOperation{vfSymReqOp(1, &spb.Uint128{High: vfU64("op.e.hi"), Low: vfU64("op.e.lo")})}, resCh, errCh)
+		s.doModify(c, []*spb.AFTOperation{in.op}, resCh, errCh)
 	case 4:
 		vfRole("session-" + c + ":disconnect")
 		s.deleteClient(c)
@@ -79,14 +86,41 @@ func VfC11_lockset() {
 	case 6:
 		vfRole("flush:any")
 		req := &spb.FlushRequest{NetworkInstance: &spb.FlushRequest_All{All: &spb.Empty{}}}
-		switch vfInt("flush.elec", 0, 2) {
+		switch in.flushElec {
 		case 1:
 			req.Election = &spb.FlushRequest_Override{Override: &spb.Empty{}}
 		case 2:
-			req.Election = &spb.FlushRequest_Id{Id: &spb.Uint128{High: vfU64("f.hi"), Low: vfU64("f.lo")}}
+			req.Election = &spb.FlushRequest_Id{Id: &spb.Uint128{High: in.fHi, Low: in.fLo}}
 		}
 		s.Flush(nil, req)
 	}
-	vfRole("")
-	vfReach("end")
+}
+
+// vfC11Setup: the shared server state of the lock-discipline harness.
+func vfC11Setup(primary string) *Server {
+	s := &Server{cs: map[string]*clientState{}, masterRIB: rib.New(DefaultNetworkInstanceName)}
+	if err := s.masterRIB.AddNetworkInstance("VRF-A"); err != nil {
+		panic(err)
+	}
+	id := &spb.Uint128{High: 1, Low: 1}
+	for _, c := range []string{"A", "B"} {
+		s.cs[c] = &clientState{params: &clientParams{ExpectElecID: true, Persist: true}, setParams: true, lastElecID: id}
+	}
+	s.curElecID, s.curMaster = id, primary
+	vfC11Seed(s)
+	return s
+}
+
+func vfC11Seed(s *Server) {
+	vfAddNH(s.masterRIB, DefaultNetworkInstanceName, 1)
+	vfAddNH(s.masterRIB, "VRF-A", 2)
+	for _, o := range []*spb.AFTOperation{
+		vfNHGOp(801, DefaultNetworkInstanceName, 1, 1, nil),
+		vfNHGOp(802, DefaultNetworkInstanceName, 2, 1, nil),
+		vfV4Op(803, DefaultNetworkInstanceName, "1.1.1.1/32", 2, nil),
+	} {
+		if oks, _, err := s.masterRIB.AddEntry(o.NetworkInstance, o); err != nil || len(oks) != 1 {
+			panic("cannot seed RIB")
+		}
+	}
 }
